@@ -206,6 +206,14 @@ def check_kernel(model, name, args, SR, n):
     return f"generated kernel {name} (Float) vs implementation: {d}" if d else None
 
 
+def _guarded(fn, *a):
+    """an exception out of the library during a direct check is a result (the unchanged library raises none here)"""
+    try:
+        return fn(*a)
+    except Exception as ex:       # noqa: BLE001
+        return f"{fn.__name__}: the library raised {type(ex).__name__}: {str(ex)[:200]}"
+
+
 def check_calls(r):
     """user shapes are called once per forge with the stored arguments, the blueprint's SR and an int count"""
     SR = r.choice([10, 100, 2.5, 1e6, 12345.678])
@@ -266,7 +274,10 @@ def check_calls_twins(r):
     up, down = make_shape(1.0), make_shape(-1.0)
     lv = r.choice([0.5, 1, -0.25])
     e = Element()
-    for ch, f in ((1, up), (2, down)):
+    pairs = [(1, up), (2, down)]
+    if r.random() < 0.5:
+        pairs.reverse()          # channel 2 assigned before channel 1: every channel still gets its own shape's block
+    for ch, f in pairs:
         bp = BluePrint()
         bp.insertSegment(-1, f, (lv,), dur=n / SR, name="lvl")
         bp.setSR(SR)
@@ -389,19 +400,19 @@ def direct(seed, tier, model, stats):
                                   f"{float(np.max(np.abs(out - ref))) if out.shape == ref.shape else 'shape'} (tolerance 2e-8)",
                           "call": {"shape": "sine", "args": [fl, 1.5, 0.25, ph], "SR": SRl, "npts": nl}})
     for _ in range(60 if tier == "quick" else 1000):
-        d = check_calls(r)
+        d = _guarded(check_calls, r)
         tested["calls"] += 1
         if d:
             fails.append({"what": d, "call": "user-shape call convention (Element.getArrays on a blueprint of recording shapes)"})
             break
     for _ in range(20 if tier == "quick" else 200):
-        d = check_calls_twins(r)
+        d = _guarded(check_calls_twins, r)
         tested["calls"] += 1
         if d:
             fails.append({"what": d, "call": "user-shape call convention (two look-alike shapes on two channels; array-valued argument)"})
             break
     for _ in range(30 if tier == "quick" else 300):
-        d = check_arb(r)
+        d = _guarded(check_arb, r)
         tested["arb"] += 1
         if d:
             fails.append({"what": d, "call": "PulseAtoms.arb_func(recording function, kwargs, SR, n)"})
